@@ -578,6 +578,23 @@ def choice_lattice():
         ents.append(mk_config("OBS", "int", prompt=None, defaults=[{"v": C("1"), "c": S("M1")}, {"v": C("3"), "c": S("M3")}, {"v": C("0"), "c": Y}]))
         order.append(["s", "OBS"])
         out.append({"prog": ents, "ord": order, "vars": vars_, "family": "F-choice", "point": dict(members=list(pat), defaults=dflt, twice="memberless", dep2=dep2, first=first)})
+    # a default that names an option outside the choice (a typo or a rename away from a proper one): it selects
+    # nothing, the next default / the first visible member decides
+    for second, gated in itertools.product((0, 1), (0, 1)):
+        ents, order, vars_ = [], [], []
+        for g in ("G", "OUTSIDE"):
+            ents.append(gate(g))
+            order.append(["s", g])
+            vars_.append({"n": g, "kind": "sym", "cands": [NOVAL, "n"]})
+        mem = [mk_config("M1", "bool", prompt=(S("G") if gated else Y)), mk_config("M2", "bool", prompt=Y), mk_config("M3", "bool", prompt=Y)]
+        ch = {"k": "choice", "id": "CH", "title": "ch", "prompt": [Y], "dep": Y, "defaults": [{"m": "OUTSIDE", "c": Y}] + ([{"m": "M3", "c": S("G")}] if second else []), "children": mem}
+        ents.append(ch)
+        order.append(["ch", "CH"])
+        order += [["s", "M1"], ["s", "M2"], ["s", "M3"]]
+        vars_.append({"n": "CH", "kind": "choice", "cands": [NOVAL, "M2"]})
+        ents.append(mk_config("OBS", "int", prompt=None, defaults=[{"v": C("1"), "c": S("M1")}, {"v": C("3"), "c": S("M3")}, {"v": C("0"), "c": Y}]))
+        order.append(["s", "OBS"])
+        out.append({"prog": ents, "ord": order, "vars": vars_, "family": "F-choice", "point": dict(outside_default=True, second=second, gated=gated)})
     out += twochoice_lattice()
     return out
 
